@@ -236,6 +236,9 @@ type EvPlan struct {
 	ThenAnswer bool `json:"thenAnswer,omitempty"` // (quiescent delivery) the next client action is an answer, issued at once
 	Last  bool   `json:"last,omitempty"` // (quiescent delivery) deliver only when no task request is pending
 	WhenListening int `json:"whenListening,omitempty"` // (own) wait until this many ActiveListeningTraces were observed
+	Prompt bool `json:"prompt,omitempty"` // (own) deliver the moment the After/WhenListening condition holds (signalled by the observer) instead of at the next quiescent moment: the event races with whatever the engine is doing right then
+	Burst  int  `json:"burst,omitempty"`  // (quiescent delivery) deliver this event and the next Burst quiescent ones back to back, without waiting for the engine in between
+	BurstConc bool `json:"burstConc,omitempty"` // ... each from its own goroutine
 }
 
 const watchdog = 100 * time.Second
@@ -302,6 +305,22 @@ func (c *ProcCase) Main() {
 	cancelled := make(chan struct{})
 	var isCancelled simlog.Cell
 
+	// gates of the prompt events: closed by the observer the moment their condition holds
+	gates := make([]chan struct{}, len(c.Events))
+	gateOpen := make([]bool, len(c.Events))
+	openGates := func(nt, nl int) {
+		for i, ep := range c.Events {
+			if ep.Own && ep.Prompt && !gateOpen[i] && nt >= ep.After && nl >= ep.WhenListening {
+				gateOpen[i] = true
+				close(gates[i])
+			}
+		}
+	}
+	for i := range gates {
+		gates[i] = make(chan struct{})
+	}
+	openGates(0, 0)
+
 	// observer
 	obsDone := make(chan struct{})
 	go func() {
@@ -317,6 +336,7 @@ func (c *ProcCase) Main() {
 			if k == "listening" {
 				nlistening.Add(1)
 			}
+			openGates(n, int(nlistening.Get()))
 			if c.Stress != nil {
 				select {
 				case tick <- struct{}{}:
@@ -489,6 +509,44 @@ func (c *ProcCase) Main() {
 				if len(pending) == 0 || opt == len(pending) {
 					ep := quiet[0]
 					quiet = quiet[1:]
+					if ep.Burst > 0 && len(quiet) > 0 {
+						// a burst: this event and the following ones back to back
+						group := []EvPlan{ep}
+						for len(group) <= ep.Burst && len(quiet) > 0 {
+							group = append(group, quiet[0])
+							quiet = quiet[1:]
+						}
+						env.fault("event-burst")
+						for _, x := range group {
+							L.Add("ev", x.Kind, x.Ref, 0)
+						}
+						if ep.BurstConc {
+							bd := make(chan struct{}, len(group))
+							for _, x := range group {
+								x := x
+								go func() {
+									if _, err := proc.ConsumeEvent(mkEvent(x.Kind, x.Ref)); err != nil {
+										L.Add("ev-err", x.Kind, err.Error(), 0)
+									}
+									bd <- struct{}{}
+								}()
+							}
+							for range group {
+								<-bd
+							}
+						} else {
+							for _, x := range group {
+								if _, err := proc.ConsumeEvent(mkEvent(x.Kind, x.Ref)); err != nil {
+									L.Add("ev-err", x.Kind, err.Error(), 0)
+								}
+							}
+						}
+						for _, x := range group {
+							L.Add("ev-ret", x.Kind, x.Ref, 0)
+						}
+						skipHold = group[len(group)-1].ThenAnswer
+						continue
+					}
 					L.Add("ev", ep.Kind, ep.Ref, 0)
 					if _, err := proc.ConsumeEvent(mkEvent(ep.Kind, ep.Ref)); err != nil {
 						L.Add("ev-err", ep.Kind, err.Error(), 0)
@@ -644,7 +702,15 @@ func (c *ProcCase) Main() {
 		ei, ep := ei, ep
 		go func() {
 			// (bounded: if the instance comes to rest before that many traces were seen, deliver anyway)
-			for polls := 0; (int(ntraces.Get()) < ep.After || int(nlistening.Get()) < ep.WhenListening) && polls < 400; polls++ {
+			if ep.Prompt {
+				select {
+				case <-gates[ei]:
+				case <-time.After(400 * time.Millisecond):
+				case <-stop:
+					return
+				}
+			}
+			for polls := 0; !ep.Prompt && (int(ntraces.Get()) < ep.After || int(nlistening.Get()) < ep.WhenListening) && polls < 400; polls++ {
 				select {
 				case <-time.After(time.Millisecond):
 				case <-stop:
